@@ -343,6 +343,12 @@ impl Scenario for C09 {
             3 => Kind::Hc128,
             _ => *rng.pick(&DET_KINDS),
         };
+        if rng.chance(1, 200) {
+            // a source that is stuck at zero for 150 000 .. 400 000 blocks and then delivers a key: XorShiftRng
+            // has to redraw that often, consume exactly that much and use the first non-zero block
+            let src = gen_long_zero_source(rng);
+            return Spec { prop: "C09".into(), variant: "long_zero".into(), kind: Some(Kind::XorShift), seed: Some(SeedSpec::FromRng(src)), ..Default::default() };
+        }
         let n = kind.from_rng_len();
         let mut src = gen_source(rng, kind);
         // leading all-zero blocks: XorShiftRng redraws (one more call per block)
@@ -381,6 +387,33 @@ impl Scenario for C09 {
                 _ => Ok(()),
             },
             "u64" => self.u64_route(kind, spec.aux.first().copied().unwrap_or(0), st),
+            "long_zero" => match spec.seed.as_ref() {
+                Some(SeedSpec::FromRng(src)) => {
+                    st.evals += 1;
+                    st.count("probe:long_zero_source");
+                    let want = build_ok(kind, &SeedSpec::Bytes(src.prefix.clone()));
+                    let a = build_ok(kind, &SeedSpec::FromRng(src.clone()));
+                    let b = build_ok(kind, &SeedSpec::TryFromRng(src.clone()));
+                    match (want, a, b) {
+                        (Ok((w, _)), Ok((a, ra)), Ok((b, rb))) => {
+                            let need = src.zero_run + 16;
+                            let pos_ok = ra.as_ref().map(|r| r.pos == need).unwrap_or(false) && rb.as_ref().map(|r| r.pos == need).unwrap_or(false);
+                            if a.eq_dyn(w.as_ref()) != Some(true) || b.eq_dyn(w.as_ref()) != Some(true) || !pos_ok {
+                                Err(E::End(RunEnd::Violation(v(
+                                    "C09/route_mismatch",
+                                    kind,
+                                    "long_zero",
+                                    format!("XorShiftRng from a source that is zero for {} blocks and then delivers a key: from_rng / try_from_rng must equal from_seed(first non-zero block) and consume exactly {} bytes (consumed {:?} / {:?})", src.zero_run / 16, need, ra.map(|r| r.pos), rb.map(|r| r.pos)),
+                                ))))
+                            } else {
+                                Ok(())
+                            }
+                        }
+                        (Err(e), _, _) | (_, Err(e), _) | (_, _, Err(e)) => Err(e),
+                    }
+                }
+                _ => Ok(()),
+            },
             _ => Ok(()),
         };
         match r {
